@@ -1,4 +1,6 @@
 fn main() {
+    // verification hooks are compiled only with `--cfg cooklang_cooklang_rs_verif`
+    println!("cargo::rustc-check-cfg=cfg(cooklang_cooklang_rs_verif)");
     #[cfg(feature = "bundled_units")]
     {
         println!("cargo::rerun-if-changed=units.toml");
